@@ -13,7 +13,7 @@ from openmdao.utils.general_utils import determine_adder_scaler  # noqa: E402
 from openmdao.drivers.autoscalers.autoscaler import Autoscaler  # noqa: E402
 from openmdao.utils.units import unit_conversion  # noqa: E402
 
-INF = Fraction(10) ** 30
+INF = Fraction(1e30)      # INF_BOUND as the code sees it
 
 
 def F(x):
@@ -138,12 +138,17 @@ def handle_prob(c):
     lo_c, up_c, eq_c = dr._autoscaler.get_bounds_scaling('constraint')
     lo_d, up_d = lo_d['x'].copy(), up_d['x'].copy()
     lo_c, up_c, eq_c = lo_c['y'].copy(), up_c['y'].copy(), eq_c['y'].copy()
-    Ju = p.compute_totals(of=['y', 'z'], wrt=['x'], driver_scaling=False)
-    Js = p.compute_totals(of=['y', 'z'], wrt=['x'], driver_scaling=True)
-    Jd = dr._compute_totals(of=['y', 'z'], wrt=['x'], return_format='flat_dict', driver_scaling=True)
+    Ju = p.compute_totals(driver_scaling=False)            # the driver's own responses and design vars
+    Js = p.compute_totals(driver_scaling=True)
+    Jd = dr._compute_totals(return_format='flat_dict', driver_scaling=True)
     Ju = {k: np.array(v) for k, v in Ju.items()}
     Js = {k: np.array(v) for k, v in Js.items()}
     Jd = {k: np.array(v) for k, v in Jd.items()}
+    # a subset / another order of the driver's responses, still with driver scaling
+    Jsub = {}
+    for of in (['y'], ['z'], ['y', 'z']):
+        for k, v in p.compute_totals(of=of, wrt=['x'], driver_scaling=True).items():
+            Jsub[tuple(of), k] = np.array(v)
 
     # ---- oracle -------------------------------------------------------------------------
     def unit_tuple(spec):
@@ -210,6 +215,11 @@ def handle_prob(c):
                     if not close(F(JJ[of, 'x'][i][j]), want_s, tol):
                         fails.append(('jac-scaled', '%s d%s/dx[%d,%d]: %r, response scaling * model block / design scaling is %s' % (
                             nm, of, i, j, JJ[of, 'x'][i][j], float(want_s))))
+                for (ofl, key), blk in Jsub.items():
+                    if key == (of, 'x') and not close(F(blk[i][j]), want_s, tol):
+                        fails.append(('jac-scaled-subset', 'compute_totals(of=%s, wrt=[x], driver_scaling=True) d%s/dx[%d,%d]: %r, '
+                                      'response scaling * model block / design scaling is %s' % (
+                                          list(ofl), of, i, j, blk[i][j], float(want_s))))
     # unscaling returns exactly the model values: write the scaled values back
     vec = dr._vectors['design_var']
     vec.set_data(xs.copy(), driver_scaling=True)
